@@ -48,7 +48,7 @@ class Split(Family):
     name = 'split'
     rule = ('exhaustive byte strings over {CR,LF,NUL,space,a} up to a bounded length x 10 newline patterns x both modes, '
             'plus random longer strings, size boundaries, harvested sizes, all byte values, lines colliding under crc32 / '
-            'adler32; non-trivial = the data contains the newline at least once and at least one '
+            'adler32, data starting with byte order marks / magic numbers; non-trivial = the data contains the newline at least once and at least one '
             'other byte; distinct by (data, newline, mode)')
 
     def cases(self, tier, rng, prop_id):
@@ -74,6 +74,16 @@ class Split(Family):
                 else:
                     parts.append(bytes(rng.choice(b'\r\n\x00 ab\xff') for _ in range(rng.randint(0, 5))))
             yield dict(kind='random', data=hx(b''.join(parts)), nl=hx(nl), keep=rng.random() < 0.5)
+        # data (and later lines) that START with a byte order mark of any Unicode codec or another magic number: bytes like
+        # any other to a line splitter, under every newline pattern and both modes
+        import codecs as _codecs
+        magics = [_codecs.BOM_UTF8, _codecs.BOM_UTF16_LE, _codecs.BOM_UTF16_BE, _codecs.BOM_UTF32_LE, _codecs.BOM_UTF32_BE,
+                  b'\x1f\x8b', b'#!', b'\x00', b'\xff', b'+/v8', b'\xef\xbb', b'\xbf']
+        for mg in magics:
+            for nl in NEWLINES:
+                for k in (True, False):
+                    for d in (mg + b'@@ -1 +1 @@' + nl + b'-a' + nl, mg + nl, mg, mg + b'x', b'a' + nl + mg + b'b' + nl, mg + nl + mg + nl + mg):
+                        yield dict(kind='magic', data=hx(d), nl=hx(nl), keep=k)
         # different lines of equal length that the standard checksums / hashes cannot tell apart (zlib.crc32, zlib.adler32,
         # the first and last bytes, the length): lines are told apart by their bytes only
         for a, b in collision_pairs():
